@@ -92,7 +92,12 @@ def one_doc(draw):
                     served.append([oi, status, {"json": draw(instances.instance(s, comps))}])
             except instances.Unsatisfiable:
                 pass
-    return {"ir": ir, "insts": insts, "served": served, "literal": draw(st.booleans())}
+    # how a component is *used* changes the code generated for it: a model that is also a multipart body gets a second encoder
+    used_as = {}
+    for name, s in ir["schemas"]:
+        if s["k"] == "object" and draw(st.integers(0, 2)) == 0:
+            used_as[name] = draw(st.sampled_from(["multipart/form-data", "multipart/form-data", "application/x-www-form-urlencoded"]))
+    return {"ir": ir, "insts": insts, "served": served, "literal": draw(st.booleans()), "used_as_body": used_as}
 
 
 UNION_MEMBERS = {"uuid": {"type": "string", "format": "uuid"}, "int": {"type": "integer"}, "date": {"type": "string", "format": "date"},
@@ -184,7 +189,16 @@ def raw_doc(draw):
 
 
 def _doc_of(d):
-    return d["raw"] if "raw" in d else docs.render(d["ir"])
+    if "raw" in d:
+        return d["raw"]
+    doc = docs.render(d["ir"])
+    names = {n for n, _ in d["ir"]["schemas"]}
+    for k_body, (name, mt) in enumerate(sorted((d.get("used_as_body") or {}).items())):
+        if name in names:
+            doc.setdefault("paths", {})[f"/zzbody{k_body}"] = {"post": {
+                "operationId": f"zzSend{k_body}", "requestBody": {"required": True, "content": {mt: {"schema": {"$ref": "#/components/schemas/" + name}}}},
+                "responses": {"200": {"description": "ok"}}}}
+    return doc
 
 
 @st.composite
@@ -233,12 +247,21 @@ def run_mypy(cwd: str, targets: list[str], cache: str) -> tuple[int, list[tuple[
         m = re.match(r"^(.*?):(\d+): error: (.*?)(?:\s+\[([a-z0-9\-]+)\])?$", line)
         if m:
             text = ""
+            fn = ""
             try:
                 with open(os.path.join(cwd, m.group(1)), encoding="utf-8") as fh:
-                    text = fh.read().splitlines()[int(m.group(2)) - 1].strip()
+                    lines = fh.read().splitlines()
+                n0 = int(m.group(2)) - 1
+                text = lines[n0].strip()
+                ind = len(lines[n0]) - len(lines[n0].lstrip())
+                for back in range(n0, -1, -1):
+                    mm = re.match(r"^(\s*)(?:async\s+)?def\s+(\w+)\(", lines[back])
+                    if mm and len(mm.group(1)) < max(ind, 1):
+                        fn = mm.group(2)
+                        break
             except Exception:
                 pass
-            out.append((m.group(1), m.group(4) or "?", m.group(3) + " || " + text))
+            out.append((m.group(1), m.group(4) or "?", m.group(3) + " || " + text + " @@" + fn))
     if r.returncode not in (0, 1):
         from ..core import HarnessError
 
@@ -416,14 +439,17 @@ def run(case, ctx):
         for i, d, res in gens:
             for path, ecode, msg in per_pkg.get(f"pkg{i}", [])[:6]:
                 rel = "/".join(path.replace("\\", "/").split("/")[1:])
+                src_line, _, fn_name = msg.split(" || ")[-1].rpartition(" @@")
                 ctx.violation("mypy.no_errors", {"code": ecode, "module": module_kind(rel), "literal": bool(d.get("literal")),
-                                                 "line": line_kind(msg.split(" || ")[-1])},
+                                                 "line": line_kind(src_line), **({"function": fn_name} if fn_name in ("to_multipart",) else {})},
                               f"{rel}: {msg} [{ecode}] | doc#{i}" + (f" ({d['tag']})" if "raw" in d else ""))
         # (b), (c) runtime truthfulness
         for i, d, res in gens:
             _defaults_truthful(ctx, d, res)
             if "raw" in d:
                 ctx.nontrivial(d["raw"])
+                if d["tag"].split(":")[0] in ("param_shapes", "cookie_int", "shared_union"):
+                    _raw_encoders(ctx, d, res)
                 continue
             _truthful(ctx, d, res)
             txt = json.dumps(d["ir"])
@@ -504,6 +530,70 @@ def _defaults_truthful(ctx, d, res):
                 if not conforms(f.default, f.type, ns):
                     ctx.violation("truthful.default", {"raw": d.get("tag", "ir").split(":")[0], "literal": bool(d.get("literal"))},
                                   f"{name}.{f.name}: default {f.default!r} is not admitted by {f.type!r}"[:300])
+
+
+def _raw_encoders(ctx, d, res):
+    """Hand-shaped documents have no IR: every generated endpoint module is called with values built from its own annotations, all the
+    way into a request (a value the annotation admits must be accepted by the encoder *and* by what the encoder hands on)."""
+    try:
+        pkg = sut.Loaded(res.package_dir)
+        models = pkg.models
+    except BaseException as e:  # noqa: BLE001
+        if behave._is_ctl(e):
+            raise
+        ctx.label("import_failed")
+        return
+    raw = d["raw"]
+    cookie_nonstring = any(isinstance(p, dict) and p.get("in") == "cookie" and (p.get("schema") or {}).get("type") != "string"
+                           for item in (raw.get("paths") or {}).values() if isinstance(item, dict)
+                           for o in item.values() if isinstance(o, dict) for p in (o.get("parameters") or []))
+    def _unionish(sc):
+        return isinstance(sc, dict) and (any(k in sc for k in ("$ref", "oneOf", "anyOf", "allOf")) or sc.get("nullable") or isinstance(sc.get("type"), list))
+    header_union = any(isinstance(p, dict) and p.get("in") == "header" and _unionish(p.get("schema"))
+                       for item in (raw.get("paths") or {}).values() if isinstance(item, dict)
+                       for o in item.values() if isinstance(o, dict) for p in (o.get("parameters") or []))
+    with pkg:
+        ns = {k: getattr(models, k) for k in dir(models) if not k.startswith("_")}
+        ns.update({"Unset": pkg.types.Unset, "UNSET": pkg.types.UNSET, "File": pkg.types.File, "datetime": dt, "UUID": uuid.UUID,
+                   "Union": typing.Union, "Any": typing.Any, "Optional": typing.Optional, "Literal": typing.Literal,
+                   "FileJsonType": getattr(pkg.types, "FileJsonType", typing.Any), "Response": pkg.types.Response})
+        for name in pkg.all_module_names():
+            if not (name.startswith("api.") and name.count(".") == 2):
+                continue
+            try:
+                mod = pkg.mod(name)
+            except BaseException as e:  # noqa: BLE001
+                if behave._is_ctl(e):
+                    raise
+                continue
+            gk = getattr(mod, "_get_kwargs", None)
+            if gk is None or not hasattr(mod, "sync_detailed"):
+                continue
+            sig = inspect.signature(gk)
+            for pick in range(3):
+                try:
+                    kw = {n: value_for(p.annotation, {**vars(mod), **ns}, pkg, 0, pick + i) for i, (n, p) in enumerate(sig.parameters.items())}
+                except _TooDeep:
+                    break
+                except BaseException as e:  # noqa: BLE001
+                    if behave._is_ctl(e):
+                        raise
+                    break
+                cap = http.Capture()
+                client = http.make_client(pkg, cap, secured=True)
+                ctx.evals()
+                ctx.label("raw_endpoint_called")
+                try:
+                    mod.sync_detailed(client=client, **kw)
+                except BaseException as e:  # noqa: BLE001
+                    if behave._is_ctl(e):
+                        raise
+                    ctx.violation("annotation.encoder_accepts", {"exc": type(e).__name__, "where": "request", "raw": d["tag"].split(":")[0],
+                                                                 **({"nonstring_cookie_parameter": True} if cookie_nonstring else {}),
+                                                                 **({"union_header_parameter": True} if header_union else {})},
+                                  f"{name}: {e!r} for {kw!r}"[:400])
+                finally:
+                    http.close_client(client)
 
 
 def _truthful(ctx, d, res):
@@ -616,6 +706,15 @@ def _truthful(ctx, d, res):
                     if behave._is_ctl(e):
                         raise
                     ctx.violation("annotation.encoder_accepts", {"exc": type(e).__name__, "where": "to_dict"}, f"{name}: {e!r} for {obj!r}"[:400])
+                if hasattr(obj, "to_multipart"):
+                    # a model that is also a multipart body has a second encoder
+                    ctx.label("to_multipart_called")
+                    try:
+                        obj.to_multipart()
+                    except BaseException as e:  # noqa: BLE001
+                        if behave._is_ctl(e):
+                            raise
+                        ctx.violation("annotation.encoder_accepts", {"exc": type(e).__name__, "where": "to_multipart"}, f"{name}: {e!r} for {obj!r}"[:400])
         for op in ir["ops"]:
             er = locate.find_endpoint(res, op)
             if er is None:
@@ -648,6 +747,27 @@ def _truthful(ctx, d, res):
                     multi = bool(op.get("body")) and len(op["body"]["content"]) > 1
                     ctx.violation("annotation.encoder_accepts", {"exc": type(e).__name__, "where": "_get_kwargs", **({"multi_body": True} if multi else {})},
                                   f"{op['method']} {op['path']}: {e!r} for {kw!r}"[:400])
+                    continue
+                # the values must also survive the rest of the way into a request (what _get_kwargs returns is handed to httpx)
+                if pick == 0 and hasattr(mod, "sync_detailed"):
+                    cap = http.Capture()
+                    client = http.make_client(pkg, cap, secured=True)
+                    ctx.evals()
+                    try:
+                        mod.sync_detailed(client=client, **kw)
+                    except BaseException as e:  # noqa: BLE001
+                        if behave._is_ctl(e):
+                            raise
+                        multi = bool(op.get("body")) and len(op["body"]["content"]) > 1
+                        def _texty(sc):
+                            return sc.get("k") == "str" or (sc.get("k") == "enum" and sc.get("base") == "str") or (sc.get("k") == "const" and isinstance(sc.get("value"), str))
+                        nonstring_cookie = any(p_["in"] == "cookie" and not _texty(p_["schema"]) for p_ in op.get("params", []))
+                        ctx.violation("annotation.encoder_accepts", {"exc": type(e).__name__, "where": "request",
+                                                                     **({"nonstring_cookie_parameter": True} if nonstring_cookie else {}),
+                                                                     **({"multi_body": True} if multi else {})},
+                                      f"{op['method']} {op['path']}: {e!r} for {kw!r}"[:400])
+                    finally:
+                        http.close_client(client)
 
 
 def _n_model_members(hint, ns) -> int:
@@ -662,6 +782,18 @@ def _n_model_members(hint, ns) -> int:
         elif typing.get_origin(a) in (list, typing.List):
             n += _n_model_members(a, ns) and 1
     return n
+
+
+def _const_beside_others(hint, depth=0) -> bool:
+    """Does the annotation hold a union in which a single-valued Literal (a const, or an enum of one value) stands beside other members?"""
+    if depth > 5:
+        return False
+    args = typing.get_args(hint) or ()
+    if typing.get_origin(hint) is typing.Union:
+        real = [a for a in args if a is not type(None) and getattr(a, "__name__", "") != "Unset"]
+        if len(real) >= 2 and any(typing.get_origin(a) is typing.Literal and len(typing.get_args(a)) == 1 for a in real):
+            return True
+    return any(_const_beside_others(a, depth + 1) for a in args if not isinstance(a, (str, int, float, bool, typing.ForwardRef)))
 
 
 def _check_obj(ctx, obj, ns, comps, s, lit, depth=0, via_union=False):
@@ -681,7 +813,8 @@ def _check_obj(ctx, obj, ns, comps, s, lit, depth=0, via_union=False):
         v = getattr(obj, attr)
         if not conforms(v, hint, ns):
             ctx.violation("truthful.attribute", {"where": "attribute", "shared_list": attr == "shared_list",
-                                                 **({"object_chosen_among_union_members": True} if via_union else {})},
+                                                 **({"object_chosen_among_union_members": True} if via_union else {}),
+                                                 **({"const_member_beside_others": True} if _const_beside_others(hint) else {})},
                           f"{type(obj).__name__}.{attr} = {v!r} vs {hint!r}"[:300])
         elif hasattr(v, "to_dict") and hasattr(type(v), "from_dict"):
             _check_obj(ctx, v, ns, comps, s, lit, depth + 1, via_union or _n_model_members(hint, ns) >= 2)
